@@ -92,6 +92,18 @@ Proof.
           | |- ole (match ?x with _ => _ end) (match ?x with _ => _ end) => destruct x
           end).
 Qed.
+Lemma ole_attribute_sh t1 t2 (T : tle t1 t2) l p sh1 sh2 bs : (forall tb, ole (sh1 tb) (sh2 tb)) ->
+  ole (spec_dec_attribute_sh t1 l p sh1 bs) (spec_dec_attribute_sh t2 l p sh2 bs).
+Proof.
+  intros Hs. unfold spec_dec_attribute_sh.
+  repeat (cbv beta zeta;
+          match goal with
+          | |- ole ?x ?x => apply ole_refl
+          | |- ole (obind (sh1 _) _) (obind (sh2 _) _) => apply ole_bind; [apply Hs|intros ?]
+          | |- ole (obind _ _) (obind _ _) => apply ole_bind; [|intros ?]
+          | |- ole (match ?x with _ => _ end) (match ?x with _ => _ end) => destruct x
+          end).
+Qed.
 Lemma ole_omapM {A B} (g1 g2 : A -> outcome B) l : (forall x, ole (g1 x) (g2 x)) -> ole (omapM g1 l) (omapM g2 l).
 Proof.
   intros Hg. induction l as [|x l IH]; cbn [omapM]. apply ole_refl.
@@ -158,6 +170,38 @@ Lemma tmle_btree1_node nt nd K kind addr top level :
   mle (btree1_node f flen wstrict c nt nd K kind addr top level) (btree1_node f flen tol c nt nd K kind addr top level).
 Proof. unfold btree1_node. tn. Qed.
 Hint Resolve tmle_ohdr_walk tmle_snod_walk tmle_btree1_node : tolw.
+
+Lemma ole_committed_dtype a : ole (committed_dtype f flen wstrict c a) (committed_dtype f flen tol c a).
+Proof.
+  unfold committed_dtype. intros r H.
+  destruct (ohdr_walk f flen wstrict c resolve_fuel a st0) as [[[[ver rc] ms] st]|k] eqn:E; try discriminate.
+  rewrite (tmle_ohdr_walk resolve_fuel a st0 _ E).
+  destruct (msgs_of 3 ms) as [|m ?]; try discriminate.
+  destruct (N.testbit (ms_flags m) 1); try discriminate.
+  exact (ole_datatype _ _ (tle_strict tol) _ _ r H).
+Qed.
+Lemma ole_shared_dtype pad b : ole (shared_dtype f flen wstrict c pad b) (shared_dtype f flen tol c pad b).
+Proof. unfold shared_dtype. apply ole_bind; [apply ole_refl | intros a; apply ole_committed_dtype]. Qed.
+Lemma ole_dec_attribute pad d : ole (dec_attribute f flen wstrict c pad d) (dec_attribute f flen tol c pad d).
+Proof.
+  unfold dec_attribute.
+  repeat match goal with
+         | |- ole (match ?x with _ => _ end) (match ?x with _ => _ end) => destruct x
+         end;
+  first [ apply ole_attribute; apply tle_strict
+        | apply ole_attribute_sh; [apply tle_strict | intros tb; apply ole_shared_dtype] ].
+Qed.
+Lemma ole_dtype_of_msgs pad ms :
+  match dtype_of_msgs f flen wstrict c pad ms, dtype_of_msgs f flen tol c pad ms with
+  | Some o1, Some o2 => ole o1 o2
+  | None, None => True
+  | _, _ => False
+  end.
+Proof.
+  unfold dtype_of_msgs. destruct (msgs_of 3 ms) as [|m ?]; auto.
+  destruct (N.testbit (ms_flags m) 1); [apply ole_shared_dtype | apply ole_datatype; apply tle_strict].
+Qed.
+Hint Resolve ole_dec_attribute ole_shared_dtype : tolo.
 Lemma tmle_gbtree_body seg r1 r2 : (forall a t l, mle (r1 a t l) (r2 a t l)) ->
   forall a t l, mle (gbtree_body f flen wstrict c seg r1 a t l) (gbtree_body f flen tol c seg r2 a t l).
 Proof. intros Hr a t l. unfold gbtree_body. tn. Qed.
@@ -181,7 +225,7 @@ Hint Resolve tmle_fheap_walk tmle_btree2_walk : tolw.
 Lemma ole_dense_mode h blocks recs lib : ole (dense_mode f flen wstrict c h blocks recs lib) (dense_mode f flen tol c h blocks recs lib).
 Proof.
   unfold dense_mode. apply ole_omapM. intros x. apply ole_bind; [apply ole_refl|intros obj].
-  apply ole_bind; [apply ole_attribute; apply tle_strict | intros a; apply ole_refl].
+  apply ole_bind; [apply ole_dec_attribute | intros a; apply ole_refl].
 Qed.
 Hint Resolve ole_dense_mode : tolo.
 
@@ -199,16 +243,27 @@ Proof.
        end.
   all: intros st r E; discriminate.
 Qed.
+Lemma ole_link_mode h blocks recs lib : ole (link_mode f flen wstrict c h blocks recs lib false) (link_mode f flen tol c h blocks recs lib false).
+Proof.
+  unfold link_mode. apply ole_omapM. intros x. apply ole_bind; [apply ole_refl|intros obj].
+  apply ole_bind; [apply ole_link; apply tle_strict | intros a; apply ole_refl].
+Qed.
+(* under wstrict every reading but the specification's ends in a deviation that is not tolerated *)
+Lemma strict_modes_fail {A} (m : W A) : (forall st, exists k, m st = WErr k) -> forall m2, mle m m2.
+Proof. intros H m2 st r E. destruct (H st) as [k Hk]. rewrite Hk in E. discriminate. Qed.
 Lemma tmle_dense_links pad d : mle (dense_links f flen wstrict c pad d) (dense_links f flen tol c pad d).
 Proof.
   unfold dense_links. tn.
   all: match goal with
        | |- mle (match ?o1 with _ => _ end) (match ?o2 with _ => _ end) =>
-           let H := fresh "H" in
-           assert (H : ole o1 o2) by (apply ole_omapM; intros ?; apply ole_bind; [apply ole_refl|intros ?];
-                                      apply ole_bind; [apply ole_link; apply tle_strict | intros ?; apply ole_refl]);
-           let v := fresh "v" in destruct o1 as [v| |]; [rewrite (H v eq_refl); tn | apply mle_err | apply mle_err]
+           let H := fresh "H" in assert (H : ole o1 o2) by (apply ole_link_mode);
+           let v := fresh "v" in destruct o1 as [v| |]; [rewrite (H v eq_refl); tn | |]
        end.
+  all: apply strict_modes_fail; intros st;
+       repeat match goal with
+              | |- context [match ?o with Ok _ => _ | _ => _ end] => destruct o
+              end;
+       eexists; reflexivity.
 Qed.
 Hint Resolve tmle_dense_attrs tmle_dense_links : tolw.
 
@@ -220,6 +275,13 @@ Lemma tmle_obj_body n r1 r2 : (forall a p, mle (r1 a p) (r2 a p)) ->
   forall a p, mle (obj_body f flen wstrict c n r1 a p) (obj_body f flen tol c n r2 a p).
 Proof.
   intros Hr a p. unfold obj_body. tn.
+  all: try (apply tmle_dataset_data; intros; apply tmle_cbtree).
+  (* the datatype message, possibly shared: the two tolerances resolve it alike *)
+  all: match goal with
+       | |- mle (match dtype_of_msgs _ _ _ _ ?pad ?ms with _ => _ end) _ =>
+           let HD := fresh "HD" in pose proof (ole_dtype_of_msgs pad ms) as HD;
+           destruct (dtype_of_msgs f flen wstrict c pad ms), (dtype_of_msgs f flen tol c pad ms); try contradiction; tn
+       end.
   all: try (apply tmle_dataset_data; intros; apply tmle_cbtree).
 Qed.
 Lemma tmle_walk_obj n : forall a p, mle (walk_obj f flen wstrict c n a p) (walk_obj f flen tol c n a p).
